@@ -28,7 +28,7 @@ from lib.core import Ctx, REPO
 
 ID = "C01"
 NEEDS_GEN = True
-LEAN_TARGETS = ["AiuVerif.Props.C01"]
+LEAN_TARGETS = ["AiuVerif.Props.C01", "AiuVerif.Props.C01Args"]
 THEOREMS = [
     "AiuVerif.C01.pipeline_conserves",
     "AiuVerif.C01.exported_once",
@@ -48,6 +48,10 @@ THEOREMS = [
     "AiuVerif.C01.perEvent_pass",
     "AiuVerif.C01.syntactic_pass_sites",
     "AiuVerif.C01.syntactic_pass_classes",
+    # the clause "still carrying its user-supplied argument keys" at the export step (convert_events + event classes)
+    "AiuVerif.C01.unknown_top_entry_exported",
+    "AiuVerif.C01.args_entry_exported",
+    "AiuVerif.C01.exported_entry_has_source",
 ]
 RULE = ("random rich scenarios (gen/rich.py: 1..4 ranks, chain all-reduce groups, kernels, host slices as X and B/E, ties, "
         "nesting, staggered partial overlaps up to the 5-extra-lane budget, zero/negative durations, 1/16 us device slices, "
@@ -62,7 +66,10 @@ ASSUMPTIONS = ["-O drop removals and --comm_summarize_seq merges are judged by t
 NOT_YET_PROVED = ["class_conserves for the stages WITHOUT a Lean model (observed on the real -I streams of every run instead); proved for "
                   "sort_events, pipeline_barrier, the overlap sub-pipeline (-O tid / -O drop), queueing_counter, normalize_phase1 and "
                   "communication_event_apply via the models of C08, C03, C04, C13, C17, C20",
-                  "opaque_keys_survive (user argument keys): oracle only"]
+                  "user argument keys: proved for the export step (C01Args: unknown_top_entry_exported, args_entry_exported, "
+                  "exported_entry_has_source over Model/ExportArgs.lean, compared with the real convert_events + event classes); "
+                  "that the STAGES in front of the export leave the args entries of a slice alone is decided by the end-to-end "
+                  "oracle only (null-valued, nested and same-named entries included)"]
 LEVEL_TEXT = ("Lean theorem pipeline_conserves: for ANY pipeline of slice-conserving stages, any input and any amount of buffering in "
               "sorts, barriers, clock alignment or bandwidth stages, exported uids ++ (uids removed by filter-class stages) is a "
               "permutation of the input uids and pass-class stages remove nothing (via C03.run_eq_runSpec); exported_once; the class "
@@ -292,6 +299,45 @@ def judge(case, res, slices, globals_):
     return out
 
 
+def export_args_correspondence(ctx):
+    """ExportArgs.exportArgs vs the real EventProcessor.convert_events + event class: the args dictionary of the
+    exported slice (keys in order, values as JSON text) for random events with user entries in args and at top level,
+    null / nested / list values, an entry named alike in both places, args absent or empty"""
+    import copy as _copy
+    from aiu_trace_analyzer.core.processing import EventProcessor
+    rng = ctx.rng
+    vals = [7, "a", None, {"n": None, "k": 1}, [1, None], 0, "", 2.5, True]
+    tok = lambda v: json.dumps(v, sort_keys=True).encode().hex()      # noqa: E731
+    cases, lines = [], []
+    for _ in range(ctx.n(300, 3000)):
+        ev = {"ph": "X", "ts": 1.0, "dur": 2.0, "pid": 0, "tid": 1, "name": "n"}
+        if rng.random() < 0.3:
+            ev["cat"] = "c"
+        for k in rng.sample(["custom_top", "note", "cname", "sf", "usr_null", "tts"], rng.randint(0, 3)):
+            ev[k] = rng.choice(vals)
+        if rng.random() < 0.85:
+            ev["args"] = {k: rng.choice(vals) for k in rng.sample(["uid", "note", "usr_null", "usr_nest", "k", "custom_top"],
+                                                                   rng.randint(0, 4))}
+        keys = list(ev)
+        rng.shuffle(keys)
+        ev = {k: ev[k] for k in keys}
+        top = ",".join(f"{k}:{tok(v)}" for k, v in ev.items() if k != "args") or "%"
+        a = "-" if "args" not in ev else (",".join(f"{k}:{tok(v)}" for k, v in ev["args"].items()) or "%")
+        lines.append(f"c01 xargs {top} {a}")
+        cases.append(ev)
+    outs = ctx.driver.ask(lines)
+    for ev, o in zip(cases, outs):
+        try:
+            real = EventProcessor().convert_events([_copy.deepcopy(ev)])[0].json()["args"]
+            real = [[k, json.dumps(v, sort_keys=True)] for k, v in real.items()]
+        except Exception as e:  # noqa: BLE001
+            real = f"raises {type(e).__name__}"
+        model = [] if o == "%" else [[w.split(":")[0], bytes.fromhex(w.split(":")[1]).decode()] for w in o.split(",")] \
+            if o != "bad-op" else o
+        ctx.compare("ExportArgs.exportArgs vs convert_events + event class json(): args of the exported slice (entries in order)",
+                    {"event": ev}, model, real)
+
+
 def spec_line(case, slices, globals_):
     ov = opt_view(case["opts"])
     uid_ix = {s["uid"]: i for i, s in enumerate(slices)}
@@ -385,6 +431,7 @@ def run(ctx: Ctx):
             pending.append(("stages", case, res, len(res["stages"])))
     if ctx.search_mode or not ctx.driver or not ctx.driver.ok:
         return
+    export_args_correspondence(ctx)
     outs = ctx.driver.ask(lines)
     pos = 0
     for kind, case, payload, n in pending:
